@@ -313,19 +313,21 @@ def selfXorPanics (w : Width) (s : S) : Bool := w == .w64 && decide (numKeys chu
 
 /-- Second observed defect of the trusted base (roaring v2.19.0, `arrayContainer.ixorBitmap(b) = b.ixor(a)`): the
 in-place 32-bit `Xor` updates the OPERAND's bitmap container when the receiver's container for the same key is an
-array container — in those chunks the operand becomes the symmetric difference too (and the two bitmaps share the
-container afterwards when it stays a bitmap container). The 64-bit `Xor` combines common keys out of place, so
+array container and the result does not fit an array container — in those chunks the operand becomes the symmetric
+difference too, and the two bitmaps share that container afterwards (container identity: Model/C13Roaring). The 64-bit `Xor` combines common keys out of place, so
 the operand's content is unchanged (but see `xorRebind` in harness/c13.go: it shares sub-bitmaps). -/
 def xorOperandAfter (w : Width) (r o : S) : S :=
   match w with
   | .w64 => o
   | .w32 =>
+    let x := symm r o
     let bad := fun k =>
       let n := (chunk chunk16 k r).length
-      decide (0 < n) && decide (n ≤ arrayMax) && decide ((chunk chunk16 k o).length > arrayMax)
+      decide (0 < n) && decide (n ≤ arrayMax) && decide ((chunk chunk16 k o).length > arrayMax) &&
+        decide ((chunk chunk16 k x).length > arrayMax)     -- a result that fits an array container is built afresh
     let ks := if o.length ≤ arrayMax then [] else (keys chunk16 o).filter bad
     if ks.isEmpty then o else
-    union (o.filter (fun x => !ks.contains (x / chunk16))) ((symm r o).filter (fun x => ks.contains (x / chunk16)))
+    union (o.filter (fun v => !ks.contains (v / chunk16))) (x.filter (fun v => ks.contains (v / chunk16)))
 
 /-- does the native in-place `r.Xor(o)` leave receiver and operand SHARING a container object (so that a later in-place
 change of one shows up in the other)?  64 bit: `roaring64.(*Bitmap).Xor` inserts the operand's sub-bitmap for a
@@ -435,6 +437,44 @@ def Prov.checkedAdd (p : Prov) (v : Nat) : Prov × Option Bool :=
 
 /-- `Clone`: an independent copy; a wrapper's clone is a new wrapper with its own, free mutex -/
 def Prov.clone (p : Prov) : Option Prov := p.guard (fun s => { p with set := s, locked := false })
+
+/-! ### a delegate of `Each` that calls ANOTHER provider; consumers of a provider in graph/types.go -/
+
+inductive NestedM where
+  | remove | cadd | add | contains
+deriving DecidableEq, Repr, Inhabited
+
+def nestedApply (m : NestedM) (s : S) (v : Nat) : S :=
+  match m with
+  | .remove => del v s
+  | .cadd => ins v s
+  | .add => ins v s
+  | .contains => s
+
+/-- `x.Each(func(v){ y.M(v); return visited < k })` (`k = 0`: visit all) where `y` is a provider OTHER than `x` — a
+clone of `x`, an operand, an unrelated wrapper. The delegate runs while `x`'s mutex is held and takes `y`'s; every
+provider owns its mutex (`Clone` yields a fresh one), so the call returns unless one of the two mutexes is held
+forever. Result: the new `y`; `none` = blocks. (A delegate that calls `x` itself on a wrapper is the documented
+self-deadlock: `Props.each_self_deadlocks`.) -/
+def eachCall (x y : Prov) (k : Nat) (m : NestedM) : Option Prov :=
+  if (x.wrapped && x.locked) || (y.wrapped && y.locked) then none
+  else some { y with set := ((if k = 0 then x.set else eachPrefix x.set k)).foldl (nestedApply m) y.set }
+
+/-- `graph.DuplexToGraphIDs`: one `Each` pass, ascending -/
+def toGraphIDs (s : S) : List Nat := s
+
+/-- `toidsrace`/writer of the harness: `Add(lo+k); Remove(lo+k-8)` for `k < n` -/
+def slideWindow (s : S) (lo n : Nat) : S :=
+  (List.range n).foldl (fun acc k => let a := ins (lo + k) acc; if k ≥ 8 then del (lo + k - 8) a else a) s
+
+/-! ### commutative.go: lazy membership over several duplex providers -/
+
+/-- `DuplexCommutation.Contains`: some member with `Cardinality() > 0` contains the value -/
+def commContains (dc : List S) (v : Nat) : Bool := dc.any (fun d => decide (d.length > 0) && has d v)
+
+/-- `CommutativeDuplexes.Contains`: in at least one of the `or` commutations and in every `and` commutation -/
+def commDuplexesContains (ors ands : List (List S)) (v : Nat) : Bool :=
+  ors.any (fun dc => commContains dc v) && ands.all (fun dc => commContains dc v)
 
 /-- default of the model driver: `false` = /repo as it is (F1 present); set to `true` once hooks/C13-fix.patch is
 committed (the op line `mode fixed|current` overrides it per case). -/
